@@ -12,7 +12,7 @@ E1 = "E1 universe enumerator"
 CHECKS = {
  "C01": dict(engine=E1, cat="model_checking", ref="DESIGN.md §3 C01",
    technique="exhaustive enumeration of bounded universe families on the real solver + brute-force rule oracle",
-   text="Every (universe, problem) of the finite families F1/F1'/F2/F3/F4 (<=4 packages, <=3 versions, <=3 simultaneous decorations) is solved by the real Solver under every listed configuration (hints as-is/All/None, sync and controlled-async FIFO/LIFO, activity parameters, debug and release builds) and each returned solution is checked against an independent statement of the package rules. Exhaustive inside the stated families; says nothing about larger universes.",
+   text="Every (universe, problem) of the finite families F1/F1'/F2/F3/F4/F5/F9/F10 (F10 = a package first revealed after a decision for another transitive package, under per-package hint patterns; <=4 packages, <=3 versions, <=3 simultaneous decorations) is solved by the real Solver under every listed configuration (hints as-is/All/None, sync and controlled-async FIFO/LIFO, activity parameters, debug and release builds) and each returned solution is checked against an independent statement of the package rules. Exhaustive inside the stated families; says nothing about larger universes.",
    note="Trusted: the harness's Universe->DependencyProvider adapter and the brute-force oracle (self-checked against hand-solved universes on every run)."),
  "C02": dict(engine=E1, cat="model_checking", ref="DESIGN.md §3 C02",
    technique="exhaustive universe enumeration; verdict vs brute-force satisfiability; learnt clauses certified on all assignments",
@@ -36,7 +36,7 @@ CHECKS = {
    note="Oracle independent of resolvo."),
  "C08": dict(engine=E1, cat="model_checking", ref="DESIGN.md §3 C08",
    technique="exhaustive universe enumeration; brute-force existence of a model containing all first-ranked direct candidates",
-   text="For every case whose root requirements are single version sets: if brute force finds a valid selection containing the first-ranked candidate of every root requirement, the solution must contain them all. Families include F1' (4x2) and the interference families F8/F8b so that learning and backjumps past the root decisions occur; F8 (hints as-is/All) and F8b (every subset of hinted packages) are also run under completion orders of the controlled executor.",
+   text="For every case whose root requirements are single version sets: if brute force finds a valid selection containing the first-ranked candidate of every root requirement, the solution must contain them all. Families include F1' (4x2), the interference families F8/F8b and the late-reveal family F10 under per-package hint patterns, so that learning, backjumps past the root decisions and eager encoding of undecided solvables occur; F8 (hints as-is/All) and F8b (every subset of hinted packages) are also run under completion orders of the controlled executor.",
    note=""),
  "C09": dict(engine=E1, cat="model_checking", ref="DESIGN.md §3 C09",
    technique="exhaustive universe enumeration; provider call log walked against causality rules",
@@ -44,7 +44,7 @@ CHECKS = {
    note="Sync runtime; successive solves are covered by C13."),
  "C10": dict(engine="E2 completion-order explorer", cat="model_checking", ref="DESIGN.md §3 C10",
    technique="stateless DFS over all completion orders of parked provider futures under a controlled single-threaded executor (deviation-bounded above a size cap)",
-   text="For every instance of the tiny async family every order in which parked get_candidates/get_dependencies (thorough: also filter/sort) futures complete is executed on the real solver; each schedule must terminate (deadlock = quiescent with nothing parked), agree with the sync verdict, give a valid solution and never repeat a request. Complete schedule trees below the cap, <= d deviations from FIFO above it (both counted).",
+   text="For every instance of the tiny async family every order in which parked get_candidates/get_dependencies (thorough: also filter/sort) futures complete is executed on the real solver; each schedule must terminate (deadlock = quiescent with nothing parked), agree with the sync verdict, give a valid solution and never repeat a request - also with providers whose sort_candidates calls back into the SolverCache (dependencies of the sorted solvables, candidates of the packages they mention), whose requests race with the solver's own. Complete schedule trees below the cap, <= d deviations from FIFO above it (both counted).",
    note="Schedules are those a single-threaded executor can produce by completing one (or two) parked futures per quiescent point."),
  "C11": dict(engine="E2 completion-order explorer", cat="model_checking", ref="DESIGN.md §3 C11",
    technique="every quiescent point of every explored schedule checked against the set of already-implied candidate requests",
@@ -56,7 +56,7 @@ CHECKS = {
    note=""),
  "C13": dict(engine="E4 operation-sequence explorer", cat="model_checking", ref="DESIGN.md §3 C13",
    technique="all solve-call histories up to depth d over a 5-problem alphabet on one solver, with every cancellation index, sync and async",
-   text="All sequences of solve calls (length <= 2 quick / 3 thorough) over a per-universe alphabet of 5 problems on ONE solver, optionally with one call cancelled at every poll index; async: [call cancelled at poll k under every schedule with <= 1 deviation, then a second call]. Every call must terminate and agree with a fresh solver, solutions must be valid, and metadata obtained earlier is never requested again.",
+   text="All sequences of solve calls (length <= 2 quick / 3 thorough) over a per-universe alphabet of 5 problems on ONE solver, optionally with one call cancelled at every poll index; async: [call cancelled at poll k under every schedule with <= 1 deviation, then a second call]. Every call must terminate and agree with a fresh solver, solutions must be valid, and metadata obtained earlier is never requested again; the async histories are also run with a provider whose sort_candidates fetches dependencies through the cache.",
    note=""),
  "C14": dict(engine=E1, cat="model_checking", ref="DESIGN.md §3 C14",
    technique="exhaustive enumeration of soft-requirement universes (F5) + brute-force oracle",
@@ -80,17 +80,17 @@ CHECKS = {
    note=""),
  "C20": dict(engine="E4 operation-sequence explorer", cat="model_checking", ref="DESIGN.md §3 C20",
    technique="all SolverCache call sequences of depth d per universe vs reference filter/sort/availability model; re-entrant sort in full solves",
-   text="For every universe of F3 (<= 1/2 decorations) and a slice of F4: every sequence (length 3 quick / 4 thorough) of get_or_cache_* / are_dependencies_available_for calls on a bare SolverCache compared with the reference (partition, rank order with favored rotation, same address and no provider call on repeats, availability rule); plus full solves whose sort_candidates calls back into the cache, every universe again with all packages hinted, the sorted candidates of every union under every completion order of the provider's answers (controlled executor on a bare cache), and one-package universes with 5/21/33/64 candidates x favored position x 3 preference orders.",
+   text="For every universe of F3 (<= 1/2 decorations) and a slice of F4: every sequence (length 3 quick / 4 thorough) of get_or_cache_* / are_dependencies_available_for calls on a bare SolverCache compared with the reference (partition, rank order with favored rotation, same address and no provider call on repeats, availability rule); plus full solves whose sort_candidates calls back into the cache (sync and under completion orders of the controlled executor), hand-stepped in-flight scenarios on a bare cache (availability while a request is pending / after it was dropped, a second caller sharing the pending request, an abandoned request not blocking later ones), every universe again with all packages hinted, the sorted candidates of every union under every completion order of the provider's answers (controlled executor on a bare cache), and one-package universes with 5/21/33/64 candidates x favored position x 3 preference orders.",
    note=""),
 }
 
 CHECKS["C06"] = dict(engine=E1, cat="exploration", ref="DESIGN.md §3 C06, §10",
    technique="enumeration of instances x a fixed list of controlled hash-seed vectors x fresh solver instances, plus cross-process batch digests",
-   text="Every instance of F1 (all roots) / F3 (<= 1/2 decorations) / the dead-end family (<= 2/3 exclusion, unknown, empty-requirement, lock decorations) / a slice of F4 is solved under K fixed ahash seed vectors (K = 4 quick, 16 thorough; seed control through ahash's set_random_source and --cfg fuzzing) x 2 fresh solvers, with hints as-is and All; the solution vector (order included) or the conflict message must be identical; the whole batch is digested again in separate processes with uncontrolled seeds. Exploration, not proof: the seed space is 2^256 and only a fixed list is enumerated.",
+   text="Every instance of F1 (all roots) / F3 (<= 1/2 decorations) / the dead-end family (<= 2/3 exclusion, unknown, empty-requirement, lock decorations) / the constrains families (F3 x <= 2/3 constrains decorations, a slice of F9-wide: one solvable constraining several version sets inside one conflict) / a slice of F4 is solved under K fixed ahash seed vectors (K = 4 quick, 16 thorough; seed control through ahash's set_random_source and --cfg fuzzing) x 2 fresh solvers, with hints as-is and All; the solution vector (order included) or the conflict message must be identical; the whole batch is digested again in separate processes with uncontrolled seeds. Exploration, not proof: the seed space is 2^256 and only a fixed list is enumerated.",
    note="std's SipHash keys in conflict.rs vary per instance but are not controlled; a seed-control probe must realise >= 2 iteration orders or the run exits 2.")
 CHECKS["C17"] = dict(engine="E5 C++/Rust differential driver", cat="model_checking", ref="DESIGN.md §3 C17, §10",
    technique="universe enumeration pushed through the C++ bridge and the Rust API in one ASan/UBSan process with a layout-checking allocator; exhaustive container-operation sequences vs std::vector",
-   text="Every universe of F3 (<= 1/2 decorations), a slice of F1 and of F5 that the C++ interface can express is solved through resolvo::solve with a table-driven C++ DependencyProvider (6 ways of building the returned vectors incl. a reused scratch vector with capacity > size, with and without a pre-filled result) and through the Rust API: identical solution vector / error text, no Rust-side block survives a solve, every block is freed with the layout it was allocated with, ASan/UBSan/LSan silent; every sequence (depth 4/5) of container operations on Vector<SolvableId>/Vector<String> with 2 handles vs std::vector, String operations vs std::string, struct layouts compared; a reduced pass runs under valgrind.",
+   text="Every universe of F3 (<= 1/2 decorations), a slice of F1 and of F5 that the C++ interface can express is solved through resolvo::solve with a table-driven C++ DependencyProvider (6 ways of building the returned vectors incl. a reused scratch vector with capacity > size, with and without a pre-filled result) and through the Rust API: identical solution vector / error text, no Rust-side block survives a solve, every block is freed with the layout it was allocated with, ASan/UBSan/LSan silent; every sequence (depth 4/5) of container operations on Vector<SolvableId>/Vector<String> with 2 handles vs std::vector (incl. push_back of an element of the same vector through both overloads), String operations vs std::string (incl. self-assignment and assignment of views into the string's own data), struct layouts compared; a reduced pass runs under valgrind.",
    note="Unknown dependencies and missing packages cannot be expressed through the C++ interface; the Rust side of Vector is only reachable through the bridge.")
 
 NOT_APPLICABLE = {
